@@ -25,6 +25,9 @@ package outbound
 //@   at call _select#1 assert a1 == networkType && a4 == excluded
 //@   at call _select#2 assert !strictIpVersion && a4 == excluded && a1 != networkType
 //@   at call _select#3 assert a1 == networkType && a4 == excluded && len(g.Dialers) == 1 && a3.Policy == consts.DialerSelectionPolicy_Fixed && a3.FixedIndex == 0
+// the single-member shortcut is taken only for "no alive node" - any other selection error (e.g. fixed index out
+// of range: an invalid policy) is reported, never papered over
+//@   at call _select#3 assert errors.Is(err, ErrNoAliveDialer)
 
 //@ func preferAlternateSelectionNetworkType
 //@   trusted
@@ -198,3 +201,17 @@ package outbound
 //@   at call builtin:append#1 assert a0 == sets && a1[0] == set && set != nil
 //@   loop 1
 //@     exit $idx == 8
+
+// C15 (policy switch at run time): when a group that needed no alive state (fixed) switches to a policy that does,
+// the sets that are registered with the dialers - the ones that will receive alive/latency notifications - are
+// the NEW state's sets, which is also the state that is published.
+//@ func (*DialerGroup).SetSelectionPolicy
+//@   anchorsonly
+//@   nonilcheck
+//@   dyncalls noeffect
+//@   modifies *
+//@   at call buildSelectionState#1 assert a1.Policy == policy.Policy && a2 == true
+//@   at call registerAliveDialerSets#1 assert a1 == next.aliveDialerSets
+//@   at call Store#3 assert a1 == next
+//@   at call unregisterAliveDialerSets#1 assert a1 == oldSets && oldSets == current.aliveDialerSets
+//@   at call uniqueAliveDialerSets#1 assert a0 == current.aliveDialerSets
